@@ -32,8 +32,38 @@ class Check(PropertyCheck):
         return ImplGraph(scenario.meta.get("filter_style", "callable"))
 
     def generate(self, rng, n, tier):
-        for _ in range(n):
+        for i in range(n):
+            if i % 60 == 13:
+                yield self.wide_scenario(rng)
+                continue
             yield self.scenario(rng, tier)
+
+    def wide_scenario(self, rng) -> Scenario:
+        """More than 256 operations on one machine (many one-operation jobs) or in one job (a long chain): counts are counts,
+        whatever their size; only a few dispatches are made, every machine and the long job keep unscheduled operations."""
+        n = rng.choice([256, 257, 258, 300])         # operations on machine 0 / in job 0
+        if rng.random() < 0.5:
+            jobs = [[([0], rng.randint(1, 3))] for _ in range(n - 1)] + [[([1], 2), ([0], 1)]]
+            family = "wide_machine"
+            first = [(j, 0) for j in rng.sample(range(n - 1), 3)]          # three of the jobs on machine 0
+        else:
+            jobs = [[([k % 2], rng.randint(1, 3)) for k in range(n)], [([1], 2)], [([0], 2), ([1], 1)]]
+            family = "long_job"
+            first = [(0, 0), (0, 1), (0, 2)]                               # the first operations of the long job
+        # (the plain agent-task graph links all operations of a job with each other: 10^5 edges for the long job - left out)
+        # (likewise the variant with job nodes links the 257 job nodes of the wide instance pairwise)
+        b = "agent_task_jobs" if family == "long_job" else "agent_task"
+        lines = ["new", instance_line(jobs), "filter none", f"fres {b} 1 1", "fsnap"]
+        n_acc = 0
+        for j, p in first:
+            n_acc += 1
+            lines += [f"disp {j} {p} {jobs[j][p][0][0]}", "fsnap"]
+        if rng.random() < 0.5:
+            lines += ["reset", "fsnap"]
+            j, p = first[0]
+            lines += [f"disp {j} {p} {jobs[j][p][0][0]}", "fsnap"]
+        return Scenario(lines, {"family": family, "builder": b, "rm_machine": 1, "rm_job": 1, "flexible": False, "filter": "none",
+                                "accepted": n_acc, "episodes": 1, "filter_style": "callable"})
 
     def scenario(self, rng, tier) -> Scenario:
         fam = rng.choice(["classic", "irregular", "recirc", "flexible", "gaps", "ties", "single_machine"])
